@@ -22,6 +22,7 @@ class UnitAtom:
         self.pt_maker = None
         self.singular = None
         self.symbols = []
+        self.declared = []  # (kind, qualified name) of every spelling object in the unit's header
         self.dim = None  # {base_index: Fraction}
         self.mag = None  # {prime or 0 for pi: Fraction}
         self.label = None
@@ -69,6 +70,14 @@ def discover_units(ctx, floor=57):
             if m:
                 u.singular = m[0]
             u.symbols = re.findall(r"constexpr\s+auto\s+(\w+)\s*=\s*SymbolFor<%s>\{\}" % n, mtxt)
+            # every spelling object the header declares, whatever unit its template argument names
+            # (a header that defines ONE unit promises that all of them denote that unit)
+            u.declared = []
+            defined = [x for x in re.findall(r"\bstruct\s+([A-Z]\w*)\s*(?::|\{)", mtxt) if not x.endswith("Label")]
+            if defined == [n]:
+                for mm in re.finditer(r"constexpr\s+auto\s+(\w+)\s*=\s*(QuantityMaker|QuantityPointMaker|SingularNameFor|SymbolFor)<\s*(\w+)\s*>\s*\{\}", mtxt):
+                    ns = "au::symbols::" if mm.group(2) == "SymbolFor" and re.search(r"namespace\s+symbols", mtxt[:mm.start()]) else "au::"
+                    u.declared.append((mm.group(2), ns + mm.group(1)))
             units.append(u)
     if len(units) < floor:
         raise AnalysisBroken("only %d library units discovered (floor %d)" % (len(units), floor))
@@ -119,3 +128,36 @@ def dim_key(dim):
 
 def mag_key(mag):
     return tuple(sorted((k, v) for k, v in mag.items()))
+
+
+BASE_UNIT_DIMENSIONS = [("Meters", "Length"), ("Grams", "Mass"), ("Seconds", "Time"), ("Amperes", "Current"), ("Kelvins", "Temperature"),
+                        ("Radians", "Angle"), ("Bits", "Information"), ("Moles", "AmountOfSubstance"), ("Candelas", "LuminousIntensity")]
+
+
+def anchor_code(units):
+    """static_asserts that tie the dimensions read out of the tree to something OUTSIDE it: the nine
+    public dimension aliases are the nine base dimensions (pairwise different), and each base unit
+    has the dimension its definition in the SI (resp. radians, bits) gives it.  Every other
+    dimension the checks use is read out of the types relative to these."""
+    names = {u.name for u in units}
+    ls = []
+    dims = [d for _, d in BASE_UNIT_DIMENSIONS]
+    for d in dims:
+        ls.append('static_assert(std::is_same<au::%s, au::Dimension<au::base_dim::%s>>::value, "au::%s is the base dimension of that name");' % (d, d, d))
+    for i, a in enumerate(dims):
+        for b in dims[i + 1:]:
+            ls.append('static_assert(!std::is_same<au::%s, au::%s>::value, "%s and %s are different dimensions");' % (a, b, a, b))
+    for u, d in BASE_UNIT_DIMENSIONS:
+        if u in names:
+            ls.append('static_assert(std::is_same<au::detail::DimT<au::%s>, au::%s>::value, "%s measures %s");' % (u, d, u, d))
+    return "\n".join(ls)
+
+
+def spelling_code(u):
+    """Every spelling object declared in the unit's own header denotes that unit."""
+    ls = []
+    for kind, qn in u.declared:
+        trait = "au::AssociatedUnitForPointsT" if kind == "QuantityPointMaker" else "au::AssociatedUnitT"
+        ls.append('static_assert(std::is_same<%s<std::decay_t<decltype(%s)>>, au::%s>::value, "%s (declared in %s) denotes %s");'
+                  % (trait, qn, u.name, qn, u.header, u.name))
+    return "\n".join(ls)
